@@ -226,3 +226,47 @@ pub fn c19_iter_collection(inp: &mut Inp) {
     }
     reached();
 }
+
+//@ {"tier":"quick","unwind":6,"desc":"lookup by kind on a parser-style container whose job groups are NOT adjacent (operation, job, printer, job, unsupported, job): exactly the three job groups, in message order; other kinds likewise","sym":"i32 values"}
+pub fn c19_groups_of_nonadjacent(inp: &mut Inp) {
+    let v = inp.i32();
+    let mut attrs = IppAttributes::new();
+    let kinds = [
+        DelimiterTag::OperationAttributes,
+        DelimiterTag::JobAttributes,
+        DelimiterTag::PrinterAttributes,
+        DelimiterTag::JobAttributes,
+        DelimiterTag::UnsupportedAttributes,
+        DelimiterTag::JobAttributes,
+    ];
+    let mut i = 0;
+    while i < 6 {
+        let mut g = IppAttributeGroup::new(kinds[i]);
+        g.attributes_mut().insert("a".to_string(), IppAttribute::new("a", IppValue::Integer(v.wrapping_add(i as i32))));
+        attrs.groups_mut().push(g);
+        i += 1;
+    }
+    let gs = attrs.groups();
+    let mut it = attrs.groups_of(DelimiterTag::JobAttributes);
+    let want = [1usize, 3, 5];
+    let mut k = 0;
+    while k < 3 {
+        match it.next() {
+            Some(g) => assert!(core::ptr::eq(g, &gs[want[k]]), "groups_of yields every group of the kind, in message order"),
+            None => assert!(false, "groups_of ended before the last group of the kind"),
+        }
+        k += 1;
+    }
+    assert!(it.next().is_none(), "and nothing else");
+    drop(it);
+    {
+        let mut it = attrs.groups_of(DelimiterTag::PrinterAttributes);
+        match it.next() {
+            Some(g) => assert!(core::ptr::eq(g, &gs[2])),
+            None => assert!(false),
+        }
+        assert!(it.next().is_none());
+    }
+    core::mem::forget(attrs);
+    reached();
+}
